@@ -510,8 +510,16 @@ def poly_build(rng, depth, made):
             out = (Polynomial(c), r_const(c), f'P({c})')
         made.append(out)
         return out
-    kind = rng.choice(['add', 'sub', 'sub', 'mul', 'neg', 'pow', 'radd', 'rsub', 'rmul', 'numsub', 'selfsub', 'mulzero', 'cancel'])
+    kind = rng.choice(['add', 'sub', 'sub', 'mul', 'neg', 'pow', 'radd', 'rsub', 'rmul', 'numsub', 'selfsub', 'mulzero', 'cancel', 'zeroplus'])
     x, rx, sx = poly_build(rng, depth - 1, made)
+    if kind == 'zeroplus':
+        # the zero polynomial built from the number 0 as LEFT operand of a sum, then multiplied and cancelled: no term may survive
+        y, ry, sy = poly_build(rng, depth - 1, made)
+        z = Polynomial(0)
+        out = ((z + x) * y - x * y, r_const(0), f'((P(0) + {sx}) * {sy} - {sx} * {sy})')
+        made.append(((z + x), rx, f'(P(0) + {sx})'))
+        made.append(out)
+        return out
     if kind in ('add', 'sub', 'mul'):
         y, ry, sy = poly_build(rng, depth - 1, made)
         if kind == 'add':
